@@ -735,3 +735,112 @@ def subst_invariants(t, inv):
             return subst_invariants(inv[t], inv)
         return tuple(subst_invariants(x, inv) for x in t)
     return t
+
+
+def field_writers(facts, adt_path, field, crates=None):
+    """Who may change field number `field` of struct `adt_path`: [(function path, line, kind)] over every body (closures
+    included) of `crates` that assigns to a place ending in -- or passing through -- that field, makes it the destination
+    of a call, or takes a mutable reference / raw mutable pointer to it (kind = 'assign' | 'call-dest' | 'borrow-mut').
+    Places are typed by walking their projections from the local's declared type (the field projection carries the field's
+    own type, a deref goes to the pointee).  Building the struct as a whole (an aggregate) is not a field write."""
+    out = []
+
+    def hits(body, pl):
+        cur = facts.ty(body['locals'][pl[0]])
+        for p in pl[1]:
+            if p == '*':
+                cur = facts.ty(cur.get('inner')) if cur.get('inner') is not None else {}
+                if cur.get('k') == 'adt' and cur.get('path') == 'alloc::boxed::Box' and cur.get('args'):
+                    pass
+            elif isinstance(p, list) and p[0] == 'f':
+                if cur.get('k') == 'adt' and cur.get('path') == adt_path and p[1] == field:
+                    return True
+                cur = facts.ty(p[2])
+            elif isinstance(p, list) and p[0] in ('i', 'ci'):
+                cur = facts.ty(cur.get('inner')) if cur.get('inner') is not None else {}
+            elif isinstance(p, list) and p[0] == 'sub':
+                pass
+            # downcast / opaque: type unchanged for our purposes
+        return False
+    for path, b in sorted(facts.bodies.items()):
+        if crates is not None and b.get('crate') not in crates:
+            continue
+        for blk in b['blocks']:
+            for st in blk['s']:
+                if st[0] != '=':
+                    continue
+                if hits(b, st[1]):
+                    out.append((path, st[3], 'assign'))
+                rv = st[2]
+                if rv[0] in ('ref', 'rawptr') and (rv[1] is True or rv[1] == 'Mut') and hits(b, rv[2]):
+                    out.append((path, st[3], 'borrow-mut'))
+            t = blk['t']
+            if t['k'] == 'call' and hits(b, t['dest']):
+                out.append((path, t.get('l'), 'call-dest'))
+    return out
+
+
+def option_variant(cf, v):
+    """0 (None) / 1 (Some) / None (not established) for an Option-valued term `v`, from the branch facts `cf` of a path
+    (dict(cond_facts(p))): the test may be a match on the discriminant or an is_none() / is_some() / `== k` boolean"""
+    D = ('discr', v)
+    d = cf.get(D)
+    if d is not None and d[0] == 'int':
+        return d[1]
+    for k in (0, 1):
+        for op in ('Eq', 'Ne'):
+            b = cf.get(('op', op, D, ('int', k, 'isize')))
+            if b is not None and b[0] == 'bool':
+                same = b[1] == (op == 'Eq')
+                return k if same else 1 - k
+    return None
+
+
+def slot_cover(p, it, wref, fixed='dasp_ring_buffer::Fixed::<S>::'):
+    """What part of the fixed ring buffer behind `wref` the mutable iterator `it` visits: ('all',) for
+    window.iter_mut(), or for the two halves of ONE window.slices_mut() call chained (in either order);
+    ('half', k, i) for an iterator over half i of the slices_mut() call that is event k; None otherwise.
+    (`Fixed::iter_mut` itself is `slices_mut()` chained; C06 verifies that the two halves are data[first..], data[..first].)"""
+    SLM = 'core::slice::<impl [T]>::iter_mut'
+
+    def unre(t):
+        while t[0] == 'ref' and t[1][0][0] == 'P' and not t[1][1]:
+            t = t[1][0][1]
+        return t
+
+    def half_of(x):
+        x = unre(strip_epoch(x))
+        if x[0] == 'field' and x[1][0] == 'ret' and x[2] in (0, 1):
+            e = p['events'][x[1][1]]
+            if e['kind'] == 'call' and (e.get('rpath') or e['path']) == fixed + 'slices_mut' and e['args'][0] == wref:
+                return ('half', x[1][1], x[2])
+        return None
+    h = half_of(it)
+    if h:
+        return h
+    it = unre(strip_epoch(it))
+    if it[0] != 'ret':
+        return None
+    e = p['events'][it[1]]
+    if e['kind'] != 'call':
+        return None
+    r = e.get('rpath') or e['path']
+    if r == fixed + 'iter_mut' and e['args'][0] == wref:
+        return ('all',)
+    if e['name'] == 'chain' and e.get('trait') == ITER and len(e['args']) == 2:
+        a, b = slot_cover(p, e['args'][0], wref, fixed), slot_cover(p, e['args'][1], wref, fixed)
+        if a and b and a[0] == 'half' and b[0] == 'half' and a[1] == b[1] and {a[2], b[2]} == {0, 1}:
+            return ('all',)
+        return None
+    if r == SLM or (e['name'] == 'into_iter' and e.get('trait') == 'core::iter::traits::collect::IntoIterator' and 'mut [T]' in r):
+        return half_of(e['args'][0])
+    return None
+
+
+def covers_all(covers):
+    """do the iterators of the loops a path has been through visit every slot: one full pass, or both halves of one slices_mut()"""
+    if any(c is None for c in covers):
+        return False
+    if [c for c in covers if c[0] == 'all']:
+        return len(covers) == 1
+    return len(covers) == 2 and covers[0][1] == covers[1][1] and {covers[0][2], covers[1][2]} == {0, 1}
